@@ -167,6 +167,13 @@ MODULES["Matrix"] = dict(
     funcs=[dict(name=n, file=M_OPS, impl=MAT_IMPL, fn=n) for n in
            ["get_row", "get_col", "set_row", "set_col", "delete_row", "multiply", "eye", "resize", "transpose_in_place",
             "transpose", "swap_rows", "swap_elem", "fill", "fill_diag", "fill_band", "fill_tridiag", "fill_row", "fill_col"]])
+MODULES["Matrix"]["funcs"] += [
+    dict(name="mat_new", file="src/matrix/mod.rs", impl=r"^<T:Clone\+Number>Matrix<T>$", fn="new"),
+    dict(name="numel", file="src/matrix/mod.rs", impl=r"^<T>Matrix<T>$", fn="numel"),
+    dict(name="mindex", file=M_OPS, impl=r"Index<\(usize,usize\)>forMatrix<T>$", fn="index"),
+    dict(name="mclear", file=M_OPS, impl=r"^<T>Matrix<T>$", fn="clear"),
+]
+METHODS[("vec", "clear", 0)] = dict(g="(@nil (T A))", ret="unit", out=["recv"], atom=True)
 MODULES["Solve"] = dict(
     imports="From OV Require Import Base.Panic Base.Arith Model.Vector Model.Matrix Model.Solve gen.SrcPrelude.",
     funcs=[
